@@ -88,7 +88,7 @@ theorem C06_dv (v : Bool) (mode : Nat) (segs : List Seg) (drops : List (Option (
     (∀ d', dvOf (mergeSegs v mode segs drops).1 nm d' ≠ [] →
         ∃ i, ∃ _ : i < segs.length, ∃ d, d < segs[i].numDocs ∧
           ((mergeSegs v mode segs drops).2.getD i []).getD d none = some d') := by
-  rw [mergeSegs_maps v mode segs drops hne]
+  rw [mergeSegs_maps v mode segs drops]
   -- the merged side, as a lookup in the concatenation over all inputs
   have hm : ∀ d', dvOf (mergeSegs v mode segs drops).1 nm d' =
       if nm ∈ mergedFieldNames segs
@@ -130,7 +130,7 @@ theorem C06_dv_newNum (v : Bool) (mode : Nat) (segs : List Seg) (drops : List (O
   have hcnt := newDocCount_eq segs drops hrange
   have hne : newDocCount segs drops ≠ 0 := by omega
   refine (C06_dv v mode segs drops hne nm).1 i hi d k hd ?_
-  rw [C05_maps v mode segs drops hne, remapAll_spec segs drops i d hi hd, hk]
+  rw [C05_maps v mode segs drops, remapAll_spec segs drops i d hi hd, hk]
 
 /-- C06 (doc values), as visits: a doc-value visit of a surviving document on
     the merged segment - with any legitimately obtained visit state (`Reach`,
